@@ -5,9 +5,10 @@ Correspondence: the four entry points of spatialindex/hilbert_curve.py
 distances_from_coordinates) against Model/Hilbert.v evaluated by the Coq kernel:
 every cell / every distance for p <= 5 (n in 1..3; n = 1 up to p = 12), seeded
 samples up to the int64 guard n*p <= 62 (p <= 31 for n = 2, 20 for n = 3, 62 for
-n = 1, a few n in 4..62) including both ends of the distance range.  The scalar
-distance_from_coordinate works in place: the contents of its argument afterwards
-are compared with the model's state too.  Direct checks of the statement on the
+n = 1, a few n in 4..62) including both ends of the distance range.  Only the public
+functions are observed.  What the scalar distance_from_coordinate leaves in its argument
+is compared with the model's in-place state as a counted extra only (a rewrite that works
+on a copy is harmless).  Direct checks of the statement on the
 real results (round trip, adjacency, refinement, end points, classical curve for
 n = 2) run on the same inputs, also at orders the kernel-evaluated `_upto`
 theorems do not reach.
@@ -39,7 +40,7 @@ BATCH = 256
 
 # deadline for one plan item on the implementation side (seconds): base + per-input share;
 # the first call of a process also pays the JIT compilation (10-25 s, more under load)
-IMPL_TIMEOUT = float(os.environ.get('VERIF_IMPL_TIMEOUT', '90'))
+IMPL_TIMEOUT = float(os.environ.get('VERIF_IMPL_TIMEOUT', '150'))
 
 
 def deadline(ninputs):
@@ -283,9 +284,12 @@ def impl_item(label, p, n, hs, cells, seed):
                      'distance_from_coordinate and distances_from_coordinates disagree',
                      {'dir': 'dfc', 'p': p, 'n': n, 'cells': [cells[i]], 'scalar': dsca[i],
                       'vector': dvec[i]})
-    if any(d < 0 for d in dvec) or any(x < 0 for s in states for x in s):
-        i = next(i for i in range(len(cells)) if dvec[i] < 0 or any(x < 0 for x in states[i]))
-        mr.violation('range:distance', 'negative distance / state',
+    if any(x < 0 for s in states for x in s):
+        states = None            # not representable in the model's N: the extra is skipped
+        mr.count('internal-unavailable:scalar-argument-afterwards(negative)')
+    if any(d < 0 for d in dvec):
+        i = next(i for i in range(len(cells)) if dvec[i] < 0)
+        mr.violation('range:distance', 'negative distance',
                      {'dir': 'dfc', 'p': p, 'n': n, 'cells': [cells[i]], 'impl': dvec[i]})
         return {**out, 'violations': mr.violations, 'hist': mr.hist}
     direct_checks(mr, label, p, n, hs, vec, cells, dvec)
@@ -303,11 +307,23 @@ def batch_order_checks(mr, label, p, n, hs, vec, cells, dvec, states):
     reversed distances."""
     nev = 0
     if cells:
-        ds2, _ = U.dfc_scalar(p, states)
+        # the transposed form is computed from the distance (public result); what the scalar kernel
+        # happens to leave in its argument is used in addition when it is a different valid cell
+        side = 1 << p
+        tforms = [U.transpose_form(p, n, d) for d in dvec]
+        dst, _ = U.dfc_scalar(p, tforms)
         batch, expect = [], []
-        for c, st, d, d2 in zip(cells, states, dvec, ds2):
+        for c, st, d, d2 in zip(cells, tforms, dvec, dst):
             batch += [c, st]
             expect += [d, d2]
+        if states is not None:
+            extra = [(c, s, d) for c, s, d in zip(cells, states, dvec)
+                     if s != c and len(s) == n and all(0 <= x < side for x in s)][:2048]
+            if extra:
+                d3, _ = U.dfc_scalar(p, [s for _, s, _ in extra])
+                for (c, s, d), dd in zip(extra, d3):
+                    batch += [c, s]
+                    expect += [d, dd]
         got, untouched = U.dfc_vector(p, batch)
         nev += len(batch)
         mr.count('adversarial_rows', len(batch))
@@ -431,9 +447,9 @@ def impl_dtypes(seed, dtypes=None, per=48):
                 continue
             side, top = 1 << p, 1 << (n * p)
             cells = interesting_cells(rng, p, n, per)[:per * 3]
-            dsca, states = U.dfc_scalar(p, cells)
-            # the transposed states right after their cells (see batch_order_checks)
-            cells = cells + [x for c, s in zip(cells[:16], states[:16]) for x in (c, s)]
+            dsca, _ = U.dfc_scalar(p, cells)
+            # the transposed forms right after their cells (see batch_order_checks)
+            cells = cells + [x for c, d in zip(cells[:16], dsca[:16]) for x in (c, U.transpose_form(p, n, d))]
             dsca, _ = U.dfc_scalar(p, cells)
             dfc_out.append((p, n, cells, dsca))
             for layout in LAYOUTS:
@@ -443,8 +459,10 @@ def impl_dtypes(seed, dtypes=None, per=48):
                 nev += len(cells)
                 mr.count(f'dtype:dfc:{dt}:{layout}')
                 meta = {'dir': 'dtype', 'entry': 'dfc', 'p': p, 'n': n, 'dtype': dt, 'layout': layout}
-                if layout == 'list' and err == 'TypingError':
-                    mr.count('dfc_list_of_lists_not_accepted(TypingError)')   # the tree's behaviour today
+                if layout == 'list' and err is not None:
+                    # a Python list of lists is outside the documented input (ndarray): whether and how
+                    # it is rejected is not part of the property
+                    mr.count(f'optional:dfc_list_of_lists_not_accepted({err})')
                     continue
                 if err is not None:
                     mr.violation(f'dtype-raises:dfc:{err}',
@@ -465,7 +483,9 @@ def impl_dtypes(seed, dtypes=None, per=48):
                     break
             # one row given as a 1-d array
             got, err, rdt, same = call_vectorised('dfc', p, n, dt, 'C', cells[0])
-            if err is not None or got != [dsca[0]]:
+            if err is not None:
+                mr.count(f'optional:dfc_1d_row_not_accepted({err})')    # documented input is 2-d
+            elif got != [dsca[0]]:
                 mr.violation('vectorised-dtype:dfc', f'distances_from_coordinates on a 1-d {dt} row differs '
                                                       'from the scalar entry point',
                              {'dir': 'dtype', 'entry': 'dfc', 'p': p, 'n': n, 'dtype': dt, 'layout': 'C',
@@ -485,6 +505,9 @@ def impl_dtypes(seed, dtypes=None, per=48):
                 nev += len(hs)
                 mr.count(f'dtype:cfd:{dt}:{layout}')
                 meta = {'dir': 'dtype', 'entry': 'cfd', 'p': p, 'n': n, 'dtype': dt, 'layout': layout}
+                if layout == 'list' and err is not None:
+                    mr.count(f'optional:cfd_list_not_accepted({err})')
+                    continue
                 if err is not None:
                     mr.violation(f'dtype-raises:cfd:{err}',
                                  f'coordinates_from_distances raised {err} for {dt} / {layout} input',
@@ -596,27 +619,37 @@ def run(rep):
             model = C.coq_eval(IMPORTS, f'coordinate_from_distance {p} {n} {hs[j]}%N')
             rep.violation('cfd-differs', 'coordinate_from_distance differs from the proven model',
                           {'dir': 'cfd', 'p': p, 'n': n, 'hs': [hs[j]], 'impl': vec[j], 'model': model})
-        # coordinate -> distance (+ in-place state of the scalar entry) against the model
-        with_state = [i for i in range(len(dfc_cases)) if dfc_res[i][1] is not None]
-        without = [i for i in range(len(dfc_cases)) if dfc_res[i][1] is None]
-        bad = [with_state[k] for k in C.coq_mismatches(
-            IMPORTS, DFC_FN, DFC_TY, DFC_RES, [dfc_cases[i] for i in with_state],
-            [dfc_res[i] for i in with_state], shard=24)]
+        # coordinate -> distance against the model
         fn2 = "fun c => let '(p, cs) := c in distances_from_coordinates p cs"
-        bad += [without[k] for k in C.coq_mismatches(
-            IMPORTS, fn2, DFC_TY, 'list N', [dfc_cases[i] for i in without],
-            [dfc_res[i][0] for i in without], shard=24)]
-        for i in sorted(bad)[:6]:
+        bad = C.coq_mismatches(IMPORTS, fn2, DFC_TY, 'list N', dfc_cases, [r[0] for r in dfc_res], shard=24)
+        for i in bad[:6]:
             p, n, cells, dvec, st = dfc_meta[i]
-            j, which = locate_dfc(p, cells, dvec, st)
+            j, _ = locate_dfc(p, cells, dvec, None)
             cterm = C.coq(U.nlist(cells[j]))
-            model = C.coq_eval(IMPORTS, f'(distance_from_coordinate {p} {cterm}, '
-                                        f'distance_from_coordinate_state {p} {cterm})')
-            rep.violation('dfc-differs' if which == 'distance' else 'dfc-state-differs',
-                          'distance_from_coordinate differs from the proven model' if which == 'distance'
-                          else 'the in-place state left by distance_from_coordinate differs from the model',
-                          {'dir': 'dfc', 'p': p, 'n': n, 'cells': [cells[j]], 'impl': dvec[j],
-                           'impl_state': st[j] if st else None, 'model': model})
+            model = C.coq_eval(IMPORTS, f'distance_from_coordinate {p} {cterm}')
+            rep.violation('dfc-differs', 'distance_from_coordinate differs from the proven model',
+                          {'dir': 'dfc', 'p': p, 'n': n, 'cells': [cells[j]], 'impl': dvec[j], 'model': model})
+        # OPTIONAL extra (never a violation): what the scalar distance_from_coordinate leaves in its
+        # argument, against the model's in-place state.  Not observable behaviour of the API: a
+        # rewrite that works on a copy is harmless; the outcome is only counted.
+        with_state = [i for i in range(len(dfc_cases)) if dfc_res[i][1] is not None]
+        mutating = [i for i in with_state if dfc_meta[i][4] != dfc_meta[i][2]]
+        if with_state and not mutating:
+            rep.count('internal-unavailable:scalar-argument-afterwards(argument not modified)')
+        sub = mutating[::3]
+        if sub:
+            fn3 = "fun c => let '(p, cs) := c in map (distance_from_coordinate_state p) cs"
+            try:
+                badst = C.coq_mismatches(IMPORTS, fn3, DFC_TY, 'list (list N)', [dfc_cases[i] for i in sub],
+                                         [dfc_res[i][1] for i in sub], shard=24)
+            except C.ModelUnavailable:
+                badst = None
+            if badst is None:
+                rep.count('internal-unavailable:scalar-argument-afterwards(not evaluable)')
+            else:
+                rep.count('internal-agrees:scalar-argument-afterwards(batches)', len(sub) - len(badst))
+                if badst:
+                    rep.count('internal-differs:scalar-argument-afterwards(batches)', len(badst))
 
     compare()
     ncases = len(cfd_cases) + len(dfc_cases)
@@ -741,9 +774,10 @@ def replay(rep, rp):
         ok = ok and not bad
     if cells:
         print('distances_from_coordinates:', dvec, 'argument of the scalar entry afterwards:', st)
-        bad = C.coq_mismatches(IMPORTS, DFC_FN, DFC_TY, DFC_RES,
-                               [(C.Nat(p), U.nrows(cells))], [(U.nlist(dvec), U.nrows(st))])
-        print('model:', C.coq_eval(IMPORTS, f'({DFC_FN}) ({p}%nat, {C.coq(U.nrows(cells))})'))
+        fn2 = "fun c => let '(p, cs) := c in distances_from_coordinates p cs"
+        bad = C.coq_mismatches(IMPORTS, fn2, DFC_TY, 'list N', [(C.Nat(p), U.nrows(cells))], [U.nlist(dvec)])
+        print('model (distances, in-place state [informative only]):',
+              C.coq_eval(IMPORTS, f'({DFC_FN}) ({p}%nat, {C.coq(U.nrows(cells))})'))
         ok = ok and not bad
     return ok
 
